@@ -78,6 +78,21 @@ def run(chk):
                          "chi is not NaN exactly on the cells outside the closed-field-line core", dict(where, n_wrong=int(len(wrong)), first_wrong_xy=wrong[:4].tolist(),
                                                                                                        finite_but_open=int((got_finite & ~expect_finite).sum()), nan_but_core=int((~got_finite & expect_finite).sum())))
             else:
-                # chi goes from 0 to 2*pi round the core, proportional to zShift
-                pass
+                # chi = 2 pi zShift / ShiftAngle goes monotonically from 0 (y-face below the first core cell) towards 2 pi round the core, at all three
+                # locations (chi_xlow uses the x-face ShiftAngle: the integral once round ALL regions of the periodic y-group)
+                for nm in ("chi", "chi_xlow", "chi_ylow"):
+                    if nm not in F:
+                        continue
+                    v = np.array([[F[nm][ix, jg(j)] for j in core] for ix in range(xclosed)])
+                    if not np.all(np.isfinite(v)):
+                        continue
+                    sgn = np.sign(np.nanmean(v)) or 1.0
+                    a = sgn * v
+                    lim = 2 * np.pi * (1 + 1e-9)
+                    bad = (a.min() < -1e-9) or (a.max() > lim) or (a.shape[1] > 1 and np.diff(a, axis=1).min() <= 0)
+                    if nm == "chi_ylow" and np.abs(v[:, 0]).max() > 1e-8:
+                        bad = True
+                    if bad:
+                        chk.fail(f"chi-range:{nm}", f"{nm} does not run monotonically from 0 to 2*pi once round the closed flux surfaces",
+                                 dict(where, min=float(a.min()), max=float(a.max()), first=float(v[0, 0]), last=float(v[0, -1])))
     return n
